@@ -46,7 +46,7 @@ Definition selected (known : sid → bool) (T E : gset room) (st : adapter) (s :
 (** * BroadcastOperator.  The Go struct holds two pointers to mutable sets; To/In/Except copy the
     struct and replace one pointer by a modified Clone().  The heap makes the sharing explicit. *)
 Record bop := Bop { b_rooms : nat; b_except : nat }.       (* indexes into the heap *)
-Definition heap := list (gset room).
+Notation heap := (list (gset positive)) (only parsing).
 Definition deref (h : heap) (i : nat) : gset room := default ∅ (h !! i).
 
 (** NewBroadcastOperator: two fresh empty sets. *)
